@@ -10,7 +10,7 @@ import meta_common as M
 import checker_harness as H
 from gen import meta as G
 
-PO_NAMES = ['n/messages.po', 'pl/LC_MESSAGES/gizmo.po', 'po/de.po', 'n/x.po']
+PO_NAMES = ['n/messages.po', 'pl/LC_MESSAGES/gizmo.po', 'po/de.po', 'n/x.po', 'n/messages.pot', 'po/gizmo.pot']
 
 def _pair_replay(kind, cat, a, b, ta, tb, how, path):
     return {
@@ -251,7 +251,7 @@ def _pkg_replay(kind, deb, members, symlinks, extra):
     r.update(extra)
     return r
 
-def check_package(work, name, members, symlinks, dirs, stats, sequence=False, inject=False, via_cli=False, keep=None, source=False):
+def check_package(work, name, members, symlinks, dirs, stats, sequence=False, inject=False, via_cli=False, keep=None, source=False, lang=None):
     """one package through the real tool → list of discrepancies (empty = the clause holds on it)"""
     M.H.ready()
     from lib import cli
@@ -275,15 +275,23 @@ def check_package(work, name, members, symlinks, dirs, stats, sequence=False, in
     stats['packages'] += 1
     stats['members'] += len(members)
     fake_root = deb + '/'
-    blocks = M.expected_member_blocks(xroot, members, fake_root, 'inproc')
+    language = None
+    if lang is not None:            # `-l LANG`: the option must reach the members unchanged
+        from lib import ling
+        language = ling.parse_language(lang)
+        language.fix_codes()
+        language.remove_encoding()
+        language.remove_nonlinguistic_modifier()
+        stats['packages_with_language_option'] += 1
+    blocks = M.expected_member_blocks(xroot, members, fake_root, 'inproc', language=language)
     stats['po_mo_members'] += len(blocks)
     stats['members_with_output'] += sum(1 for v in blocks.values() if v)
-    opts = M.options(unpack_deb=True)
+    opts = M.options(unpack_deb=True, language=language)
     with M.TmpdirGuard(work) as guard:
         out, exc = M.inproc(cli.check_file, deb, options=opts)
         left = guard.leftovers()
     lines = out.splitlines()
-    base = {'package': deb, 'output': lines[:60], 'exception': exc}
+    base = {'package': deb, 'output': lines[:60], 'exception': exc, 'language_option': lang}
     if exc:
         found.append(_pkg_replay('package-exception', deb, members, symlinks, base))
     elif left:
@@ -296,7 +304,7 @@ def check_package(work, name, members, symlinks, dirs, stats, sequence=False, in
             found.append(_pkg_replay('options-changed-by-package', deb, members, symlinks, dict(base, options=repr(opts))))
     # the run after a package: a later plain file must be reported as if alone
     if sequence and not found:
-        opts = M.options(unpack_deb=True)
+        opts = M.options(unpack_deb=True, language=language)
         with M.TmpdirGuard(work) as guard:
             out2, exc2 = M.inproc(cli.check_all, [deb, other, deb], options=opts)
             left = guard.leftovers()
@@ -318,7 +326,7 @@ def check_package(work, name, members, symlinks, dirs, stats, sequence=False, in
         cli.check_regular_file = failing
         try:
             with M.TmpdirGuard(work) as guard:
-                out3, exc3 = M.inproc(cli.check_file, deb, options=M.options(unpack_deb=True))
+                out3, exc3 = M.inproc(cli.check_file, deb, options=M.options(unpack_deb=True, language=language))
                 left = guard.leftovers()
         finally:
             cli.check_regular_file = orig
@@ -329,7 +337,7 @@ def check_package(work, name, members, symlinks, dirs, stats, sequence=False, in
     if via_cli and not found:
         tdir = M.tempfile.mkdtemp(prefix='cliT.', dir=work.root)
         rel_deb = os.path.relpath(deb, work.root)
-        r = M.E.run_cli(['--unpack-deb', rel_deb, 'plain/other.txt'], work.root, extra_env={'TMPDIR': tdir})
+        r = M.E.run_cli((['-l', lang] if lang else []) + ['--unpack-deb', rel_deb, 'plain/other.txt'], work.root, extra_env={'TMPDIR': tdir})
         stats['cli_runs'] += 1
         exp = [l.replace(fake_root, rel_deb + '/', 1) for l in lines]
         got = r['stdout'].splitlines()
@@ -361,7 +369,7 @@ def packages(chk, work, count, stats, cli_every=4, keep=None):
         if source:       # a source package: relative symlink targets only (dpkg-source refuses others), no nested binary package needed
             symlinks = [(a, b) for a, b in symlinks if not b.startswith('/')]
         found += check_package(work, f'pkg{idx}', members, symlinks, dirs, stats, sequence=idx % 3 == 0, inject=idx % 4 == 1, via_cli=idx % cli_every == 0, keep=keep,
-                               source=source)
+                               source=source, lang=rng.choice(['pl', 'de', 'ja']) if idx % 4 == 2 else None)
         if found:
             return found
     # a file that is not a package, a truncated package: reported as a plain file, nothing left behind
